@@ -87,6 +87,7 @@ def fn1 (id : String) : Option (CType × CType × (Cell → Cell)) :=
   | "s.len" => some (.string, .int, fun c => match c with | .str (some s) => .int s.length | _ => .int (-1))
   | "s.isnil" => some (.string, .bool, fun c => match c with | .str none => .bool true | _ => .bool false)
   | "s.nilempty" => some (.string, .string, fun c => match c with | .str (some []) => .str none | y => y)
+  | "s.nvl" => some (.string, .string, fun c => match c with | .str none => .str (some [78, 47, 65]) | y => y)
   | _ => none
 
 def fn2 (id : String) : Option (CType × (Cell → Cell → Cell)) :=
@@ -262,6 +263,7 @@ def evalUnary (ctx : String) (op : String) (t : CType) : Option (CType × (Cell 
   | .string, "str" => some (.string, fun c => c)
   | .string, "len" => some (.int, fun c => match c with | .str (some s) => .int s.length | _ => .int 0)
   | .string, "myaddx" => some (.string, fun c => match c with | .str (some s) => .str (some (s ++ [120])) | y => y)
+  | .string, "mynvl" => some (.string, fun c => match c with | .str none => .str (some [78, 47, 65]) | y => y)   -- "N/A" for null
   | _, _ => none
 
 def evalBinary (ctx : String) (op : String) (t : CType) : Option (Cell → Cell → Cell) :=
